@@ -46,3 +46,38 @@ theorem exData_valid : ValidSym exData := by
 theorem ex632_good : Good2d ex632 := ⟨exData_valid, by decide +kernel, by decide +kernel⟩
 
 end DSymVerif.C08
+
+namespace DSymVerif.C08
+open DSymVerif.DS DSymVerif.D2
+
+/-- two chambers exchanged by all three operations, v01 = v12 = 3: the oriented symbol `332`…
+    (a closed orientable witness) -/
+def exOriData : DSymData :=
+  match ofTables 2 2 (fun _ d => 3 - d) (fun _ _ => 3) with
+  | .ok y => y
+  | _ => default
+
+def exOri : Sym := ⟨exOriData, .partialSym⟩
+
+theorem exOriData_valid : ValidSym exOriData := by
+  have hs : exOriData.dset.size = 2 ∧ exOriData.dset.dim = 2 := by decide +kernel
+  have hop : ∀ i d, i ≤ 2 → 1 ≤ d → d ≤ 2 → exOriData.dset.opU i d = 3 - d := by
+    intro i d hi h1 h2
+    have : (i = 0 ∨ i = 1 ∨ i = 2) ∧ (d = 1 ∨ d = 2) := by omega
+    rcases this with ⟨rfl | rfl | rfl, rfl | rfl⟩ <;> decide +kernel
+  refine { set := ⟨by decide +kernel, ?_, ?_⟩, index_eq := by decide +kernel, rs_eq := by decide +kernel,
+           vs_size := by decide +kernel, far := ?_ }
+  · intro i d hi h1 h2
+    rw [hs.1] at h2; rw [hs.2] at hi
+    rw [hop i d hi h1 h2, hs.1]; omega
+  · intro i d hi h1 h2
+    rw [hs.1] at h2; rw [hs.2] at hi
+    rw [hop i d hi h1 h2, hop i (3 - d) hi (by omega) (by omega)]; omega
+  · intro i j d hij hj h1 h2
+    rw [hs.1] at h2; rw [hs.2] at hj
+    rw [hop i d (by omega) h1 h2, hop j d hj h1 h2, hop j (3 - d) hj (by omega) (by omega),
+      hop i (3 - d) (by omega) (by omega) (by omega)]
+
+theorem exOri_good : Good2d exOri := ⟨exOriData_valid, by decide +kernel, by decide +kernel⟩
+
+end DSymVerif.C08
